@@ -15,7 +15,7 @@ Three paths of `MonthdayRange::Date`:
 -/
 namespace OH.Model
 open OH.Model.Cal
-open OH.Proofs.EvalSpec (offSmallD offsSmallD offWideD offsWideD)
+open OH.Proofs.EvalSpec (offSmallD offsSmallD offWideD offsWideD offFarStartD)
 
 /-! ### a yearless single day whose occurrences are all empty: any offsets -/
 
@@ -121,12 +121,14 @@ a year and for a start that carries a year (one interval); for a yearless single
 ±92 000 000 days (any start offset), or every occurrence empty (the shifted end always before the shifted start,
 any offsets); for the windowed general path: an end without a year (the range has a defined meaning) and day
 offsets within ±92 000 000 days when both dates are fixed (`offsWideD`), within ±300 000 days when a bound is
-Easter (`offsSmallD`) -/
+Easter (`offsSmallD`); or, on both yearless paths, a START offset of +99 500 000 days or more (`offFarStartD`:
+nothing ever starts before 10000-01-01, OH/Proofs/DatedFar.lean) -/
 def datedHintSafe (s : DateSpec) (so : DateOffset) (e : DateSpec) (eo : DateOffset) : Bool :=
   match singleDayOf s e with
   | some (some _, _, _) => true
-  | some (none, _, _) => offWideD eo || decide (hiOff eo < loOff so)
+  | some (none, _, _) => offWideD eo || decide (hiOff eo < loOff so) || offFarStartD so
   | none => (dateYear s).isSome || ((dateYear e).isNone && (offsSmallD s so e eo || offsWideD s so e eo))
+      || offFarStartD so
 
 /-- **Dated ranges**: under `datedHintSafe` the hint is sound on the whole evaluation window. -/
 theorem MonthdayRange.date_hintOK (s : DateSpec) (so : DateOffset) (e : DateSpec) (eo : DateOffset)
@@ -143,8 +145,12 @@ theorem MonthdayRange.date_hintOK (s : DateSpec) (so : DateOffset) (e : DateSpec
       exact MonthdayRange.date_hintOK_single s so e eo hw hsd iv (by rw [singleInterval_eq s so e eo hw, hsi]) d hd2
     | none =>
       have hy := (singleIntervalV_none_iff s so e eo hw).1 hsi
+      by_cases hfar : offFarStartD so = true
+      · simp only [offFarStartD, decide_eq_true_eq] at hfar
+        exact OH.Proofs.EvalSpec.date_hintOK_farStart s so e eo hw hy hfar d hd2
+      rw [Bool.not_eq_true] at hfar
       simp only [datedHintSafe, hsd, hy, Option.isSome_none, Bool.false_or, Bool.and_eq_true,
-        Option.isNone_iff_eq_none, Bool.or_eq_true] at hsafe
+        Option.isNone_iff_eq_none, Bool.or_eq_true, hfar, Bool.false_eq_true, or_false] at hsafe
       obtain ⟨hey, hoff⟩ := hsafe
       have hns : ¬ (s = e ∧ OH.Spec.isFixedDate s = true) := by
         rintro ⟨rfl, hfx⟩
@@ -177,9 +183,11 @@ theorem MonthdayRange.date_hintOK (s : DateSpec) (so : DateOffset) (e : DateSpec
         cases yr with
         | some fy => exact MonthdayRange.date_hintOK_singleDayYear fy m dd so eo hw d hd2
         | none =>
-          simp only [datedHintSafe, singleDayOf, if_true, Bool.or_eq_true, offWideD,
+          simp only [datedHintSafe, singleDayOf, if_true, Bool.or_eq_true, offWideD, offFarStartD,
             decide_eq_true_eq] at hsafe
-          rcases hsafe with hsafe | hsafe
+          rcases hsafe with (hsafe | hsafe) | hsafe
+          rotate_left 2
+          · exact OH.Proofs.EvalSpec.date_hintOK_farStart _ so _ eo hw rfl hsafe d hd2
           · have hw'' := hw
             simp only [MonthdayRange.wf, Bool.and_eq_true] at hw''
             exact OH.Proofs.EvalSpec.dated_single_hintOKW m dd so eo hw''.1.1.2 hw''.2 hsafe d hd1 hd2
